@@ -41,7 +41,7 @@ def parseTP (j : Json) : Except String TP := do
   let ms ← (← getArr j "metrics").toList.mapM parseMetric
   let ws ← (← getArr j "watches").toList.mapM (fun w => w.getStr?)
   pure ⟨← getStr j "id", ← getStr j "path", ← getInt j "line", ← parseArgs (← j.getObjVal? "args"), ws,
-        convert_metric_definition ms⟩
+        ms⟩
 
 def labelJ (l : LabelExpression) : Json :=
   Json.mkObj [("key", Json.str l.key), ("static", staticJ l.static), ("expression", Json.str l.expression)]
@@ -107,7 +107,9 @@ def handle (j : Json) : Except String Json := do
     pure (Json.mkObj [("rows", Json.arr rows.toArray)])
   | "response" =>
     let tps ← (← getArr j "tps").toList.mapM parseTP
-    pure (Json.mkObj [("triggers", Json.arr ((convertResponse tps).map triggerJ).toArray)])
+    match convertResponseRaw [] tps with
+    | some ts => pure (Json.mkObj [("triggers", Json.arr (ts.map triggerJ).toArray)])
+    | none => pure (Json.mkObj [("lost", Json.bool true)])
   | "register" =>
     let tps ← (← getArr j "tps").toList.mapM parseTP
     pure (Json.mkObj [("triggers", Json.arr ((registerAll tps).map optTriggerJ).toArray)])
